@@ -28,6 +28,8 @@ CURVES = {
     "jq255s": dict(file="src/jq255s.rs", F="GF255s", coords=["E", "U", "Z", "T"],
                    aff=("PointAffineExtended", ["e", "u", "t"],
                         ["set_add_affine_extended", "set_sub_affine_extended"], False)),
+    "gls254": dict(file="src/gls254.rs", F="GFb254", coords=["X", "S", "Z", "T"], decode="decode",
+                   aff=("PointAffine", ["scaled_x", "scaled_s"], ["set_add_affine", "set_sub_affine"], False)),
     "ristretto255": dict(file="src/ristretto255.rs", F="crate::field::GF25519", coords=["X", "Y", "Z", "T"],
                          wrap="crate::ed25519::Point", aff=None),
     "decaf448": dict(file="src/decaf448.rs", F="crate::field::GF448", coords=["X", "Y", "Z"],
@@ -47,7 +49,10 @@ def module_source(curve):
     A("    use std::vec::Vec;")
     A("    use std::vec;")
     A("    type F = %s;" % F)
-    A("    fn fe(b: &[u8]) -> F { F::decode_reduce(b) }")
+    if d.get("decode") == "decode":
+        A("    fn fe(b: &[u8]) -> F { F::decode(b).unwrap() }")
+    else:
+        A("    fn fe(b: &[u8]) -> F { F::decode_reduce(b) }")
     if d.get("wrap"):
         inner = d["wrap"]
         ctor = "Point(%s { %s })" % (inner, ", ".join("%s: fe(&a[i + %d])" % (c, j) for j, c in enumerate(d["coords"])))
